@@ -296,6 +296,8 @@ Proof.
   - cbn [actions_h resolve actions_of]. destruct panics; [reflexivity|].
     split; [apply ext_refl|]. split; [exact Hwf|reflexivity].
   - cbn [actions_h alloc]. apply (alloc_ok h [ASetFlowFunc id fn] (SSetFlowFunc id fn) c). reflexivity.
+  - cbn [actions_h alloc]. apply (alloc_ok h _ SLogInit c). reflexivity.
+  - reflexivity.
 Qed.
 
 (** * The interpreter *)
